@@ -65,6 +65,25 @@ package main
 // merged, the account is converted back; then every old signed transaction of
 // the account -- Ethereum, Cosmos direct / amino, EIP-712 -- is delivered again.
 // Oracle: no sequence ever decreases; a signed transaction executes at most once.
+//
+// Forged messages (process history as an input): a MsgEthereumTx carries Data and
+// two texts anybody can write, Hash and From.  After genuine transactions were
+// executed -- or merely checked -- by THIS process (the same application object,
+// never re-created within a case), the adversary submits messages built from
+// them: Data with the nonce set to the victim's current sequence (or value /
+// recipient / gas / payload changed) and the old V, R, S kept, under the Hash
+// text of the original, of another earlier transaction of any account, a
+// recomputed or random one; Data as signed under a foreign Hash text; From texts
+// naming the victim -- alone, inside multi-message envelopes beside genuine
+// messages, inside wrappers.  They run at the end of every eth mutation case
+// (ValidateBasic + ante handler) and in kind "forged" (explicit script, the
+// runner of kind "multi": real ante handler, CheckTx and DeliverTx).  Oracle,
+// computed from each message's DATA (the account its V, R, S recover to over
+// Data; Data's nonce, recipient, value, cost): nothing executes, no sequence
+// moves and nobody pays except through a message whose Data the account signed
+// at its then-current sequence, once.  The Coq model records such messages as
+// SEthMsg (is the Hash text the hash of Data; is the From text empty) and refuses
+// them by its own rule.
 
 import (
 	"bytes"
@@ -238,6 +257,13 @@ func sgErrClass(err error) (string, bool) {
 	switch {
 	case err == nil:
 		return "ok", true
+	// the two checks on the self-reported fields of a MsgEthereumTx (MsgEthereumTx.ValidateBasic: the Hash text must
+	// be the hash of the converted Data; EthValidateBasicDecorator: the From text must be empty): part of the model
+	// ([claims_ok]) for messages recorded as SEthMsg
+	case strings.Contains(err.Error(), "invalid tx hash"):
+		return "hash-field", true
+	case strings.Contains(err.Error(), "invalid From"):
+		return "from-field", true
 	case errors.Is(err, errortypes.ErrNotSupported):
 		return "unprotected-or-unsupported", true
 	case errors.Is(err, errortypes.ErrorInvalidSigner):
@@ -352,6 +378,9 @@ type sgMutant struct {
 	// SameContent: the mutation does not touch what the signature covers (signature
 	// malleability): acceptance on behalf of the signer is recorded, not judged.
 	SameContent bool
+	// ClaimHash / ClaimFrom: the self-reported Hash ("" = the hash of Data, as FromEthereumTx writes it) and From
+	// texts of the message
+	ClaimHash, ClaimFrom string
 }
 
 func sgEthMutants(r *Rng, tx *ethtypes.Transaction, other common.Address) []sgMutant {
@@ -455,14 +484,8 @@ func sgEthMutants(r *Rng, tx *ethtypes.Transaction, other common.Address) []sgMu
 	env("env-fee-granter", func(b authtx.ExtensionOptionsTxBuilder, _ *evmtypes.MsgEthereumTx) {
 		b.SetFeeGranter(sdk.AccAddress(other.Bytes()))
 	})
-	env("env-from-set", func(b authtx.ExtensionOptionsTxBuilder, msg *evmtypes.MsgEthereumTx) {
-		msg.From = other.Hex()
-		_ = b.SetMsgs(msg)
-	})
-	env("env-hash-field", func(b authtx.ExtensionOptionsTxBuilder, msg *evmtypes.MsgEthereumTx) {
-		msg.Hash = common.BytesToHash(r.Bytes(32)).Hex()
-		_ = b.SetMsgs(msg)
-	})
+	out = append(out, sgMutant{Name: "env-from-set", Tx: tx, ClaimFrom: other.Hex()})
+	out = append(out, sgMutant{Name: "env-hash-field", Tx: tx, ClaimHash: common.BytesToHash(r.Bytes(32)).Hex()})
 	env("env-second-extension", func(b authtx.ExtensionOptionsTxBuilder, _ *evmtypes.MsgEthereumTx) {
 		o, _ := codectypes.NewAnyWithValue(&evmtypes.ExtensionOptionsEthereumTx{})
 		b.SetExtensionOptions(o, o)
@@ -856,6 +879,8 @@ func sgWhy(what string) string {
 		return "a transaction whose nonce is not the account's current sequence"
 	case strings.HasPrefix(what, "env-"):
 		return "an Ethereum message in a non-canonical Cosmos envelope (" + what + ")"
+	case strings.HasPrefix(what, "forged:"):
+		return "a message forged from transactions that were validated / executed earlier in this process (" + what[len("forged:"):] + ")"
 	case strings.HasPrefix(what, "unprotected"):
 		return "an unprotected (pre-EIP-155) signature, valid on every chain, while AllowUnprotectedTxs is false"
 	case strings.HasPrefix(what, "signed-for-") || strings.HasPrefix(what, "eip712-domain"):
@@ -868,7 +893,7 @@ func sgWhy(what string) string {
 
 // ---------------------------------------------------------------- the mutation cases
 type sgInput struct {
-	Kind  string `json:"kind"`  // "mutations" | "blocks" | "multi" | "wrapped" | "accountops"
+	Kind  string `json:"kind"`  // "mutations" | "blocks" | "multi" | "wrapped" | "accountops" | "forged"
 	Route string `json:"route"` // for mutations
 	Seed  uint64 `json:"seed"`
 	// kinds "multi" and "wrapped": the explicit script (generated from the seed when absent): initial
@@ -885,6 +910,10 @@ type sgTx struct {
 	Msgs []sgMsgSpec // the Ethereum route: ExtensionOptionsEthereumTx, these MsgEthereumTx and nothing else
 	Wrap *sgWrap     // any other route
 	Op   *sgOp       // an account-type operation
+	// Check: the Ethereum-route transaction Msgs is only CHECKED (JSON {"check": [...]}): ValidateBasic and the ante
+	// handler in CheckTx mode on a discarded branch of the state, and the application's real CheckTx; nothing is
+	// delivered, no state changes -- but the process has seen and validated the messages
+	Check bool
 }
 
 // sgOp: an operation on the TYPE of account Target, performed by a Cosmos transaction (Route, default
@@ -936,6 +965,11 @@ func (t sgTx) MarshalJSON() ([]byte, error) {
 			Op *sgOp `json:"op"`
 		}{t.Op})
 	}
+	if t.Check {
+		return json.Marshal(struct {
+			Check []sgMsgSpec `json:"check"`
+		}{t.Msgs})
+	}
 	if t.Msgs == nil {
 		return []byte("[]"), nil
 	}
@@ -947,16 +981,17 @@ func (t *sgTx) UnmarshalJSON(b []byte) error {
 		return json.Unmarshal(b, &t.Msgs)
 	}
 	var o struct {
-		Wrap *sgWrap `json:"wrap"`
-		Op   *sgOp   `json:"op"`
+		Wrap  *sgWrap     `json:"wrap"`
+		Op    *sgOp       `json:"op"`
+		Check []sgMsgSpec `json:"check"`
 	}
 	if err := json.Unmarshal(b, &o); err != nil {
 		return err
 	}
-	if o.Wrap == nil && o.Op == nil {
-		return fmt.Errorf("a transaction of a script is an array of messages, {\"wrap\": ...} or {\"op\": ...}")
+	if o.Wrap == nil && o.Op == nil && o.Check == nil {
+		return fmt.Errorf("a transaction of a script is an array of messages, {\"wrap\": ...}, {\"op\": ...} or {\"check\": [...]}")
 	}
-	t.Wrap, t.Op = o.Wrap, o.Op
+	t.Wrap, t.Op, t.Msgs, t.Check = o.Wrap, o.Op, o.Check, o.Check != nil
 	return nil
 }
 
@@ -985,13 +1020,47 @@ func (t sgTx) carried() []sgMsgSpec {
 // create != "" = a contract creation (To = nil, no value): "ok" = init code 0x00 (deploys empty code), "fail" =
 // init code 0xfe (the EVM execution fails), "store" = a constructor that writes a storage slot and returns a
 // one-byte runtime.
+// forge != nil = a message FORGED from the signed transaction (from, nonce, alt) -- which may have been executed,
+// merely checked, or never shown to the node: see sgForge.
 type sgMsgSpec struct {
-	From   int    `json:"from"`
-	Nonce  uint64 `json:"nonce"`
-	Alt    int    `json:"alt,omitempty"`
-	Mut    bool   `json:"mut,omitempty"`
-	Fund   bool   `json:"fund,omitempty"`
-	Create string `json:"create,omitempty"`
+	From   int      `json:"from"`
+	Nonce  uint64   `json:"nonce"`
+	Alt    int      `json:"alt,omitempty"`
+	Mut    bool     `json:"mut,omitempty"`
+	Fund   bool     `json:"fund,omitempty"`
+	Create string   `json:"create,omitempty"`
+	Forge  *sgForge `json:"forge,omitempty"`
+}
+
+// sgForge: what the adversary makes of a signed transaction T.  Data = T with the fields named in Change
+// ("+"-separated: "nonce" := Nonce, "value" + 1, "to" := a fresh address, "gas" + 1000, "data" + one byte) altered
+// and the V, R, S of T kept ("" = Data as signed).  Hash = the self-reported Hash text of the message: "" = recomputed
+// from Data (what FromEthereumTx writes), "signed" = the hash of T as it was signed, "of" = the hash of the signed
+// transaction Of (another earlier transaction, of any account), "random".  FromField = the From text: "" = empty,
+// "signer" = the address of the account that signed T, "other" = the address of the next account.
+type sgForge struct {
+	Change    string    `json:"change,omitempty"`
+	Nonce     uint64    `json:"nonce,omitempty"`
+	Hash      string    `json:"hash,omitempty"`
+	Of        *sgMsgRef `json:"of,omitempty"`
+	FromField string    `json:"from_field,omitempty"`
+}
+
+type sgMsgRef struct {
+	From  int    `json:"from"`
+	Nonce uint64 `json:"nonce"`
+	Alt   int    `json:"alt,omitempty"`
+}
+
+func (f *sgForge) key() string {
+	if f == nil {
+		return ""
+	}
+	of := ""
+	if f.Of != nil {
+		of = fmt.Sprintf("%d.%d.%d", f.Of.From, f.Of.Nonce, f.Of.Alt)
+	}
+	return fmt.Sprintf("/forge:%s:%d:%s:%s:%s", f.Change, f.Nonce, f.Hash, of, f.FromField)
 }
 
 var sgInitCode = map[string][]byte{
@@ -1007,6 +1076,9 @@ type sgEthSubmit struct {
 	expect           string // "accept-for-signer" | "not-for-signer" | "record"
 	fundRecovered    bool
 	allowUnprotected bool
+	// the self-reported fields of the message: Hash ("" = the hash of Data) and From ("" = empty) -- when either is
+	// given the message is recorded as SEthMsg
+	claimHash, claimFrom string
 }
 
 func (w *sgWorld) ethDescriptor(c *sgCase, tx *ethtypes.Transaction) (string, int) {
@@ -1017,10 +1089,33 @@ func (w *sgWorld) ethDescriptor(c *sgCase, tx *ethtypes.Transaction) (string, in
 	return fmt.Sprintf("SEth %s %s %s %s", coqBool(tx.Protected()), coqZ(tx.ChainId()), coqU64(tx.Nonce()), sigCoqOptN(rec)), rec
 }
 
+// ethMsgDescriptor: a message whose Hash / From texts were written by the sender of the envelope.  Everything but
+// the two facts about the texts is computed from Data (tx = the conversion of Data), as in ethDescriptor.
+func (w *sgWorld) ethMsgDescriptor(c *sgCase, tx *ethtypes.Transaction, claimHash, claimFrom string) (string, int) {
+	_, rec := w.ethDescriptor(c, tx)
+	hashBound := claimHash == "" || claimHash == tx.Hash().Hex()
+	return fmt.Sprintf("SEthMsg %s %s %s %s %s %s", coqBool(hashBound), coqBool(claimFrom == ""), coqBool(tx.Protected()), coqZ(tx.ChainId()),
+		coqU64(tx.Nonce()), sigCoqOptN(rec)), rec
+}
+
 // submitEth runs one Ethereum transaction through the ante handler on ctx and
 // records it as a one-step history (branch = true) or appends it to main.
 func (w *sgWorld) submitEth(c *sgCase, ctx sdk.Context, signer *sgAcct, s sgEthSubmit, h *sgHist) {
 	desc, rec := w.ethDescriptor(c, s.tx)
+	if s.claimHash != "" || s.claimFrom != "" {
+		desc, rec = w.ethMsgDescriptor(c, s.tx, s.claimHash, s.claimFrom)
+		inner := s.env
+		s.env = func(b authtx.ExtensionOptionsTxBuilder, msg *evmtypes.MsgEthereumTx) {
+			if s.claimHash != "" {
+				msg.Hash = s.claimHash
+			}
+			msg.From = s.claimFrom
+			_ = b.SetMsgs(msg)
+			if inner != nil {
+				inner(b, msg)
+			}
+		}
+	}
 	if s.fundRecovered && rec >= 0 && !c.accts[rec].Equals(signer.Acc) {
 		// an account that "exists only by accident": give the recovered stranger funds and the right sequence
 		sgInstall(ctx, w.App, c.accts[rec], s.tx.Nonce(), true)
@@ -1161,7 +1256,8 @@ func (w *sgWorld) runEthMutations(c *sgCase, e *Env, r *Rng, route string) {
 		if m.SameContent {
 			exp = "record"
 		}
-		w.submitEth(c, bctx, a, sgEthSubmit{what: m.Name, tx: m.Tx, env: m.Env, expect: exp, fundRecovered: m.Env == nil && r.Chance(45)}, &h)
+		w.submitEth(c, bctx, a, sgEthSubmit{what: m.Name, tx: m.Tx, env: m.Env, expect: exp, claimHash: m.ClaimHash, claimFrom: m.ClaimFrom,
+			fundRecovered: m.Env == nil && m.ClaimHash == "" && m.ClaimFrom == "" && r.Chance(45)}, &h)
 		c.hists = append(c.hists, h)
 	}
 	// ---- signatures made for another chain id
@@ -1208,8 +1304,10 @@ func (w *sgWorld) runEthMutations(c *sgCase, e *Env, r *Rng, route string) {
 	w.submitEth(c, ctx, a, sgEthSubmit{what: "original", tx: orig, expect: "accept-for-signer"}, &h)
 	w.submitEth(c, ctx, a, sgEthSubmit{what: "replay-immediately", tx: orig, expect: "not-for-signer"}, &h)
 	n := 1 + r.Intn(3)
+	last := orig
 	for i := 1; i <= n; i++ {
 		next := sign(mk(seq0+uint64(i), sgThisEIP155), w.Signer, a)
+		last = next
 		w.submitEth(c, ctx, a, sgEthSubmit{what: "next-nonce", tx: next, expect: "accept-for-signer"}, &h)
 		if r.Chance(50) {
 			w.submitEth(c, ctx, a, sgEthSubmit{what: "replay-later", tx: orig, expect: "not-for-signer"}, &h)
@@ -1217,6 +1315,58 @@ func (w *sgWorld) runEthMutations(c *sgCase, e *Env, r *Rng, route string) {
 	}
 	w.submitEth(c, ctx, a, sgEthSubmit{what: "replay-later", tx: orig, expect: "not-for-signer"}, &h)
 	c.hists = append(c.hists, h)
+
+	// ---- forged follow-ups: the process has now validated and executed orig .. last for account a.  The adversary
+	// builds messages FROM them -- Data with the nonce set to a's current sequence (or value / recipient / gas
+	// changed), the old V, R, S kept, under the Hash text of the original, of another executed transaction, or
+	// recomputed; a From text naming a; a transaction of b under a's Hash text or From text -- each on its own
+	// branch of the state, in the same process.  None may execute on behalf of a.
+	cur := sgSeq(ctx, w.App, a.Acc)
+	renonce := func(tx *ethtypes.Transaction, f func(*sgEthFields)) *ethtypes.Transaction {
+		x := sgFieldsOf(tx)
+		x.Nonce = cur
+		if f != nil {
+			f(&x)
+		}
+		return x.build()
+	}
+	one := big.NewInt(1)
+	other := common.BytesToAddress(r.Bytes(20))
+	bTx := sign(mk(sgSeq(ctx, w.App, b.Acc), sgThisEIP155), w.Signer, b)
+	type forgery struct {
+		name       string
+		tx         *ethtypes.Transaction
+		hash, from string
+	}
+	forgeries := []forgery{
+		{"nonce-current/hash-of-original", renonce(orig, nil), orig.Hash().Hex(), ""},
+		{"nonce-current/hash-recomputed", renonce(orig, nil), "", ""},
+		{"nonce-current+value/hash-of-original", renonce(orig, func(f *sgEthFields) { f.Value = new(big.Int).Add(f.Value, one) }), orig.Hash().Hex(), ""},
+		{"nonce-current+to/hash-of-original", renonce(orig, func(f *sgEthFields) { f.To = &other }), orig.Hash().Hex(), ""},
+		{"nonce-current+gas/hash-of-original", renonce(orig, func(f *sgEthFields) { f.Gas++ }), orig.Hash().Hex(), ""},
+		{"value/hash-of-original", func() *ethtypes.Transaction {
+			x := sgFieldsOf(orig)
+			x.Value = new(big.Int).Add(x.Value, one)
+			return x.build()
+		}(), orig.Hash().Hex(), ""},
+		{"nonce-current/from-signer", renonce(orig, nil), "", a.Addr.Hex()},
+		{"nonce-current/hash-of-original/from-signer", renonce(orig, nil), orig.Hash().Hex(), a.Addr.Hex()},
+		{"tx-of-b/hash-of-original", bTx, orig.Hash().Hex(), ""},
+		{"tx-of-b/from-signer", bTx, "", a.Addr.Hex()},
+		{"nonce-current/hash-random", renonce(orig, nil), common.BytesToHash(r.Bytes(32)).Hex(), ""},
+	}
+	if n > 0 {
+		forgeries = append(forgeries,
+			forgery{"nonce-current/hash-of-last", renonce(orig, nil), last.Hash().Hex(), ""},
+			forgery{"last-nonce-current/hash-of-last", renonce(last, nil), last.Hash().Hex(), ""},
+			forgery{"last-nonce-current/hash-of-original", renonce(last, nil), orig.Hash().Hex(), ""})
+	}
+	for _, fg := range forgeries {
+		bctx, _ := ctx.CacheContext()
+		fh := sgHist{}
+		w.submitEth(c, bctx, a, sgEthSubmit{what: "forged:" + fg.name, tx: fg.tx, expect: "not-for-signer", claimHash: fg.hash, claimFrom: fg.from}, &fh)
+		c.hists = append(c.hists, fh)
+	}
 }
 
 // ---- Cosmos / EIP-712
@@ -1593,7 +1743,7 @@ func sgStartChain() (*app.Haqq, tmproto.Header, sdk.Context) {
 }
 
 func sgSpecKey(sp sgMsgSpec) string {
-	return fmt.Sprintf("%d/%d/%d/%v/%s", sp.From, sp.Nonce, sp.Alt, sp.Mut, sp.Create)
+	return fmt.Sprintf("%d/%d/%d/%v/%s", sp.From, sp.Nonce, sp.Alt, sp.Mut, sp.Create) + sp.Forge.key()
 }
 
 // sgGenMulti writes the script of a "multi" case into the input: 2-3 sender accounts, 5-9 Cosmos
@@ -2015,6 +2165,161 @@ func sgGenWrapped(in *sgInput) {
 	}
 }
 
+// sgGenForged writes the script of a "forged" case into the input: 2-3 sender accounts; genuine Ethereum-route
+// transactions that execute (the sequences move), genuine ones that are merely CHECKED, and -- most steps -- Cosmos
+// transactions with messages FORGED from transactions the process has executed, checked, or never seen: Data with
+// the nonce set to the victim's current sequence (and / or value, recipient, gas, payload changed) and the old V, R,
+// S kept, under the Hash text of the transaction as signed, of another earlier transaction (of any account), a
+// recomputed or random one; Data as signed under a foreign Hash text; From texts naming the victim or somebody else
+// -- alone, beside genuine messages of the victim or of another sender (before / behind them), two forgeries in one
+// envelope, inside authz.MsgExec.  A shadow of the sequences keeps the nonces meaningful.
+func sgGenForged(in *sgInput) {
+	r := NewRng(in.Seed ^ 0x666f72676564)
+	na := 2 + r.Intn(2)
+	sim := make([]uint64, na)
+	for i := range sim {
+		sim[i] = uint64(r.Intn(4))
+		if r.Chance(5) {
+			sim[i] = 1 << 40
+		}
+	}
+	in.Seq0 = append([]uint64{}, sim...)
+	done := []sgMsgSpec{}    // executed on the Ethereum route
+	checked := []sgMsgSpec{} // validated by CheckTx only
+	M := func(from int, nonce uint64) sgMsgSpec { return sgMsgSpec{From: from, Nonce: nonce} }
+	direct := func(i, n int) {
+		tx := []sgMsgSpec{}
+		for q := 0; q < n; q++ {
+			tx = append(tx, M(i, sim[i]))
+			done = append(done, M(i, sim[i]))
+			sim[i]++
+		}
+		in.Txs = append(in.Txs, sgTx{Msgs: tx})
+	}
+	pick := func(weights ...int) int {
+		tot := 0
+		for _, w := range weights {
+			tot += w
+		}
+		x := r.Intn(tot)
+		for i, w := range weights {
+			if x < w {
+				return i
+			}
+			x -= w
+		}
+		return 0
+	}
+	ref := func(sp sgMsgSpec) *sgMsgRef { return &sgMsgRef{From: sp.From, Nonce: sp.Nonce, Alt: sp.Alt} }
+	direct(r.Intn(na), 1+r.Intn(2)) // something is validated and executed before anything is forged
+	nsteps := 6 + r.Intn(5)
+	for t := 0; t < nsteps; t++ {
+		k := r.Intn(100)
+		switch {
+		case k < 16:
+			direct(r.Intn(na), 1+r.Intn(2))
+		case k < 26: // a genuine transaction with the current nonce that is only checked (it may be delivered later)
+			i := r.Intn(na)
+			sp := M(i, sim[i])
+			in.Txs = append(in.Txs, sgTx{Msgs: []sgMsgSpec{sp}, Check: true})
+			checked = append(checked, sp)
+		default:
+			// ---- the transaction the forgery is made of
+			var base sgMsgSpec
+			switch q := r.Intn(100); {
+			case q < 65 || len(checked) == 0 && q < 80:
+				base = done[r.Intn(len(done))]
+			case q < 80:
+				base = checked[r.Intn(len(checked))]
+			default: // signed by its account with the current nonce, never shown to the node
+				i := r.Intn(na)
+				base = sgMsgSpec{From: i, Nonce: sim[i], Alt: 5}
+			}
+			v := base.From
+			forge := func(at uint64) sgMsgSpec {
+				sp := base
+				fg := &sgForge{}
+				another := func() *sgMsgRef { // the hash of another earlier transaction, of any account
+					for try := 0; try < 4; try++ {
+						o := done[r.Intn(len(done))]
+						if o != base {
+							return ref(o)
+						}
+					}
+					return nil
+				}
+				second := []string{"value", "to", "gas", "data"}
+				switch pick(30, 8, 8, 10, 10, 10, 8, 6, 5, 5) {
+				case 0: // THE forged replay: nonce := current sequence, Hash text of the transaction as signed
+					fg.Change, fg.Nonce, fg.Hash = "nonce", at, "signed"
+				case 1: // ... and one more field changed
+					fg.Change, fg.Nonce, fg.Hash = "nonce+"+second[r.Intn(4)], at, "signed"
+				case 2: // one field changed, the nonce as signed
+					fg.Change, fg.Hash = second[r.Intn(4)], "signed"
+				case 3: // the same signature values over changed Data, Hash recomputed
+					fg.Change, fg.Nonce = "nonce", at
+				case 4: // ... under the Hash text of another earlier transaction
+					fg.Change, fg.Nonce, fg.Hash, fg.Of = "nonce", at, "of", another()
+				case 5: // Data as signed under the Hash text of another earlier transaction
+					fg.Hash, fg.Of = "of", another()
+				case 6: // a From text naming the victim
+					fg.Change, fg.Nonce, fg.FromField = "nonce", at, "signer"
+					if r.Bool() {
+						fg.Hash = "signed"
+					}
+				case 7: // Data as signed with a From text
+					fg.FromField = []string{"signer", "other"}[r.Intn(2)]
+				case 8:
+					fg.Change, fg.Nonce, fg.Hash = "nonce", at, "random"
+				default:
+					fg.Hash = "random"
+				}
+				if fg.Hash == "of" && fg.Of == nil { // there is no other transaction yet
+					fg.Hash = "random"
+				}
+				if at == base.Nonce && strings.HasPrefix(fg.Change, "nonce") {
+					// the base carries the current nonce already (checked only / never submitted): "nonce := current" would
+					// change nothing, another signed field is changed instead
+					if rest := strings.TrimPrefix(strings.TrimPrefix(fg.Change, "nonce"), "+"); rest != "" {
+						fg.Change = rest
+					} else {
+						fg.Change = second[r.Intn(4)]
+					}
+					fg.Nonce = 0
+				}
+				sp.Forge = fg
+				return sp
+			}
+			at := sim[v]
+			j := (v + 1 + r.Intn(na-1)) % na
+			switch pick(50, 14, 8, 10, 10, 8) {
+			case 0: // alone
+				in.Txs = append(in.Txs, sgTx{Msgs: []sgMsgSpec{forge(at)}})
+			case 1: // behind a genuine message of the victim: the sequence at that point is one further
+				in.Txs = append(in.Txs, sgTx{Msgs: []sgMsgSpec{M(v, at), forge(at + 1)}})
+			case 2: // before it
+				in.Txs = append(in.Txs, sgTx{Msgs: []sgMsgSpec{forge(at), M(v, at)}})
+			case 3: // beside a genuine message of another sender
+				tx := []sgMsgSpec{M(j, sim[j]), forge(at)}
+				if r.Bool() {
+					tx[0], tx[1] = tx[1], tx[0]
+				}
+				in.Txs = append(in.Txs, sgTx{Msgs: tx})
+			case 4: // two forgeries in one envelope
+				in.Txs = append(in.Txs, sgTx{Msgs: []sgMsgSpec{forge(at), forge(at + 1)}})
+			default: // carried by authz.MsgExec / as a plain message of a Cosmos transaction
+				f := forge(at)
+				wr := &sgWrap{Route: "cosmos-direct", Signer: []int{v, j}[r.Intn(2)], Depth: r.Intn(3), Before: r.Intn(2), Inner: []sgInner{{Eth: &f}}}
+				in.Txs = append(in.Txs, sgTx{Wrap: wr})
+			}
+		}
+	}
+	direct(r.Intn(na), 1) // the genuine traffic goes on
+	if n := len(in.Txs); n > 3 && r.Chance(50) {
+		in.Boundary = 1 + r.Intn(n-1)
+	}
+}
+
 type sgSigned struct {
 	spec  sgMsgSpec
 	tx    *ethtypes.Transaction
@@ -2027,6 +2332,23 @@ type sgSigned struct {
 	label string
 	// contract creations: to = the address of the contract (CreateAddress(sender, nonce)), value = 0
 	create string
+	// forged messages (spec.Forge != nil): tx is the conversion of the message's Data, rec / to / value / cost are those
+	// of Data; claimHash / claimFrom = the Hash and From texts of the message; noncanon = they are not what
+	// FromEthereumTx writes for this Data; altered = Data is not what was signed
+	forged, noncanon, altered bool
+	claimHash, claimFrom      string
+}
+
+// ethMsg builds the MsgEthereumTx of a signed (or forged) message.
+func (g *sgSigned) ethMsg() *evmtypes.MsgEthereumTx {
+	m := &evmtypes.MsgEthereumTx{}
+	if err := m.FromEthereumTx(g.tx); err != nil {
+		panic(err)
+	}
+	if g.forged {
+		m.Hash, m.From = g.claimHash, g.claimFrom
+	}
+	return m
 }
 
 func (w *sgWorld) runMulti(c *sgCase, in *sgInput) {
@@ -2036,6 +2358,8 @@ func (w *sgWorld) runMulti(c *sgCase, in *sgInput) {
 			sgGenOps(in)
 		case in.Kind == "wrapped":
 			sgGenWrapped(in)
+		case in.Kind == "forged":
+			sgGenForged(in)
 		case in.Seed%5 < 2: // two multi cases in five: batches with contract creations and their re-deliveries
 			sgGenCreates(in)
 		default:
@@ -2083,9 +2407,78 @@ func (w *sgWorld) runMulti(c *sgCase, in *sgInput) {
 	// ---- all signed messages of the script; the accounts they recover to are interned (and the funded
 	// strangers installed) before the history starts
 	signed := map[string]*sgSigned{}
-	get := func(sp sgMsgSpec) *sgSigned {
+	var get func(sp sgMsgSpec) *sgSigned
+	get = func(sp sgMsgSpec) *sgSigned {
+		if sp.Forge != nil && (sp.Mut || sp.Create != "") {
+			sp.Forge = nil // forgeries are made of plain calls
+			c.tags["forged:bad-script"] = true
+		}
 		key := sgSpecKey(sp)
 		if g, ok := signed[key]; ok {
+			return g
+		}
+		if fg := sp.Forge; fg != nil {
+			base := get(sgMsgSpec{From: sp.From, Nonce: sp.Nonce, Alt: sp.Alt})
+			fr := NewRng(in.Seed ^ 0x666f726765)
+			for _, ch := range []byte(key) {
+				fr = NewRng(fr.U64() ^ uint64(ch))
+			}
+			x := sgFieldsOf(base.tx)
+			to := base.to
+			changes := []string{}
+			for _, ch := range strings.Split(fg.Change, "+") {
+				switch ch {
+				case "nonce":
+					x.Nonce = fg.Nonce
+					changes = append(changes, fmt.Sprintf("nonce:=%d", fg.Nonce))
+				case "value":
+					x.Value = new(big.Int).Add(x.Value, big.NewInt(1))
+					changes = append(changes, "value+1")
+				case "to":
+					to = common.BytesToAddress(fr.Bytes(20))
+					x.To = &to
+					changes = append(changes, "recipient")
+				case "gas":
+					x.Gas += 1000
+					changes = append(changes, "gas+1000")
+				case "data":
+					x.Data = append(x.Data, 0x01)
+					changes = append(changes, "payload")
+				}
+			}
+			tx := x.build()
+			g := &sgSigned{spec: sp, tx: tx, hash: tx.Hash().Hex()[:12], to: to, value: tx.Value(), forged: true}
+			g.altered = tx.Hash() != base.tx.Hash()
+			hashText := "recomputed from Data"
+			g.claimHash = tx.Hash().Hex()
+			switch fg.Hash {
+			case "signed":
+				g.claimHash, hashText = base.tx.Hash().Hex(), "of the transaction as signed ("+base.hash+")"
+			case "of":
+				ref := base
+				if fg.Of != nil {
+					ref = get(sgMsgSpec{From: fg.Of.From, Nonce: fg.Of.Nonce, Alt: fg.Of.Alt})
+				}
+				g.claimHash, hashText = ref.tx.Hash().Hex(), "of "+ref.label+" ("+ref.hash+")"
+			case "random":
+				g.claimHash, hashText = common.BytesToHash(fr.Bytes(32)).Hex(), "random"
+			}
+			fromText := "empty"
+			switch fg.FromField {
+			case "signer":
+				g.claimFrom, fromText = accts[sp.From%len(accts)].Addr.Hex(), fmt.Sprintf("account%d", sp.From)
+			case "other":
+				g.claimFrom, fromText = accts[(sp.From+1)%len(accts)].Addr.Hex(), fmt.Sprintf("account%d", (sp.From+1)%len(accts))
+			}
+			g.noncanon = g.claimHash != tx.Hash().Hex() || g.claimFrom != ""
+			what := "Data as signed"
+			if g.altered {
+				what = "Data changed after signing (" + strings.Join(changes, ", ") + "; V, R, S kept)"
+			}
+			g.label = fmt.Sprintf("%s/FORGED[%s; Hash text %s; From text %s]", base.label, what, hashText, fromText)
+			g.cost = new(big.Int).Add(tx.Value(), new(big.Int).Mul(price, new(big.Int).SetUint64(tx.Gas())))
+			g.desc, g.rec = w2.ethMsgDescriptor(c, tx, g.claimHash, g.claimFrom)
+			signed[key] = g
 			return g
 		}
 		rr := NewRng(in.Seed ^ (uint64(sp.From+1)*0x9E3779B97F4A7C15 + sp.Nonce*0xC2B2AE3D27D4EB4F + uint64(sp.Alt+1)*0x165667B19E3779F9))
@@ -2302,11 +2695,10 @@ func (w *sgWorld) runMulti(c *sgCase, in *sgInput) {
 				continue
 			}
 			g := get(*im.Eth)
-			m := &evmtypes.MsgEthereumTx{}
-			if err := m.FromEthereumTx(g.tx); err != nil {
-				panic(err)
+			m := g.ethMsg()
+			if !g.forged {
+				m.From = ""
 			}
-			m.From = ""
 			carried = append(carried, g)
 			inner = append(inner, m)
 			labels = append(labels, g.label+" "+g.hash)
@@ -2515,6 +2907,8 @@ func (w *sgWorld) runMulti(c *sgCase, in *sgInput) {
 			kind := "no-signer"
 			switch {
 			case g.rec < 0:
+			case g.altered:
+				kind = "forged"
 			case execTotal[g.hash] > 0:
 				kind = "replay"
 			case g.tx.Nonce() < pre[g.rec]:
@@ -2607,11 +3001,13 @@ func (w *sgWorld) runMulti(c *sgCase, in *sgInput) {
 		}
 	}
 
+	committed := false
 	for t, txs := range in.Txs {
 		specs := txs.Msgs
 		if in.Boundary > 0 && t == in.Boundary {
 			a.EndBlock(abci.RequestEndBlock{Height: hdr.Height})
 			a.Commit()
+			committed = true
 			hdr.Height++
 			hdr.Time = hdr.Time.Add(5 * time.Second)
 			a.BeginBlock(abci.RequestBeginBlock{Header: hdr})
@@ -2636,16 +3032,19 @@ func (w *sgWorld) runMulti(c *sgCase, in *sgInput) {
 		msgs := []*sgSigned{}
 		sdkMsgs := []sdk.Msg{}
 		labels, descs := []string{}, []string{}
+		noncanon, fromTexts := false, false
 		for _, sp := range specs {
 			g := get(sp)
-			m := &evmtypes.MsgEthereumTx{}
-			if err := m.FromEthereumTx(g.tx); err != nil {
-				panic(err)
-			}
 			msgs = append(msgs, g)
-			sdkMsgs = append(sdkMsgs, m)
+			sdkMsgs = append(sdkMsgs, g.ethMsg())
 			labels = append(labels, g.label+" "+g.hash)
 			descs = append(descs, g.desc)
+			noncanon = noncanon || g.noncanon
+			fromTexts = fromTexts || g.claimFrom != ""
+			if g.forged {
+				c.tags["forged:data:"+map[bool]string{true: "altered", false: "as-signed"}[g.altered]+":hash:"+
+					map[bool]string{true: "own", false: "foreign"}[g.claimHash == g.tx.Hash().Hex()]+":from:"+map[bool]string{true: "empty", false: "set"}[g.claimFrom == ""]] = true
+			}
 		}
 		what := fmt.Sprintf("tx%d", t)
 		// /repo's own builder of (multi-message) Ethereum transactions; nil key = the messages are signed already
@@ -2654,6 +3053,16 @@ func (w *sgWorld) runMulti(c *sgCase, in *sgInput) {
 			c.fail("%s: cannot build: %v", what, err)
 			continue
 		}
+		if fromTexts { // PrepareEthTx clears every From text: the forged ones are written afterwards
+			for k, g := range msgs {
+				sdkMsgs[k].(*evmtypes.MsgEthereumTx).From = g.claimFrom
+			}
+			b, ok := ctxTx.(client.TxBuilder)
+			if !ok || b.SetMsgs(sdkMsgs...) != nil {
+				c.fail("%s: cannot build the envelope with From texts", what)
+				continue
+			}
+		}
 		bz, err := w2.TxCfg.TxEncoder()(ctxTx)
 		if err != nil {
 			c.fail("%s: cannot encode: %v", what, err)
@@ -2661,6 +3070,26 @@ func (w *sgWorld) runMulti(c *sgCase, in *sgInput) {
 		}
 		pre, preBal := c.snapshot(ctx, a), bals()
 		preTo := snapTo(msgs)
+		if txs.Check {
+			// merely checked: the messages pass through ValidateBasic and the ante handler in CheckTx mode (a discarded
+			// branch of the deliver state, where the accounts are) and through the application's real CheckTx; nothing is
+			// delivered.  The process has now seen them; the state has not changed, the history the model sees neither.
+			bctx, _ := ctx.CacheContext()
+			aerr := w2.sgRunAnte(bctx.WithIsCheckTx(true), bz)
+			class, _ := sgErrClass(aerr)
+			c.tags["checked-only:ante:"+class] = true
+			if committed { // the check state is a branch of the last COMMITTED state: before the first commit it is empty
+				res := a.CheckTx(abci.RequestCheckTx{Tx: bz, Type: abci.CheckTxType_New})
+				c.tags[fmt.Sprintf("checked-only:CheckTx:code%d", res.Code)] = true
+			}
+			post, postBal := c.snapshot(ctx, a), bals()
+			for i := range post {
+				if post[i] != pre[i] || postBal[i].Cmp(preBal[i]) != 0 {
+					c.fail("%s: a transaction that was only checked changed the deliver state: account %d sequence %d -> %d, balance %s -> %s", what, i, pre[i], post[i], preBal[i], postBal[i])
+				}
+			}
+			continue
+		}
 		// ---- what the property says about this transaction (walk over the messages with the sequences as they are)
 		bad, cat := "", "in-order"
 		{
@@ -2676,6 +3105,8 @@ func (w *sgWorld) runMulti(c *sgCase, in *sgInput) {
 					bad, cat = fmt.Sprintf("message %d replays the signed transaction %s (%s), executed in an earlier transaction", k, g.hash, g.label), "replay"
 				case g.spec.Mut && preBal[g.rec].Cmp(g.cost) < 0:
 					bad, cat = fmt.Sprintf("message %d (%s) was altered after signing; the account its signature now recovers to cannot pay", k, g.label), "altered"
+				case g.altered && preBal[g.rec].Cmp(g.cost) < 0:
+					bad, cat = fmt.Sprintf("message %d (%s) carries Data nobody signed: its V, R, S recover to an account that is none of the senders and cannot pay; what its Hash / From texts say authorises nothing", k, g.label), "forged"
 				case g.tx.Nonce() < cur[g.rec]:
 					bad, cat = fmt.Sprintf("message %d (%s) uses nonce %d, already used: the account's sequence at that point is %d", k, g.label, g.tx.Nonce(), cur[g.rec]), "used-nonce"
 				case g.tx.Nonce() > cur[g.rec]:
@@ -2719,7 +3150,10 @@ func (w *sgWorld) runMulti(c *sgCase, in *sgInput) {
 				}
 				whos = append(whos, g.rec)
 				// the property: only at the account's then-current sequence ...
-				if g.tx.Nonce() != cur[g.rec] {
+				if g.tx.Nonce() != cur[g.rec] && g.altered {
+					c.fail("%s: %s was EXECUTED (its recipient was paid): Data nobody signed -- the V, R, S in it were made over other Data and recover, over this Data, to an account that is none of the senders",
+						what, g.label)
+				} else if g.tx.Nonce() != cur[g.rec] {
 					c.fail("%s: the signed transaction %s (%s) was executed with nonce %d while the account's sequence was %d",
 						what, g.hash, g.label, g.tx.Nonce(), cur[g.rec])
 				}
@@ -2761,7 +3195,11 @@ func (w *sgWorld) runMulti(c *sgCase, in *sgInput) {
 					what, strings.Join(labels, ", "), bad, pre, post, executed)
 			}
 		} else {
-			if !accepted {
+			if !accepted && noncanon {
+				// correctly signed Data at the current sequence under a Hash / From text that is not its own: the property
+				// does not say that such a message must be served; had it been, everything below applies
+				c.tags["forged:signed-data-under-foreign-texts:refused"] = true
+			} else if !accepted {
 				c.fail("%s [%s]: correctly signed messages, each with its sender's current sequence, were rejected: code %d %s",
 					what, strings.Join(labels, ", "), res.Code, res.Log)
 			} else {
@@ -2851,7 +3289,7 @@ func sgRunCase(id string, in sgInput) Case {
 		e := forkEnv() // only to share the tx config / signer
 		c.tags["kind:blocks"] = true
 		sgWorldOf(e).runBlocks(c, r)
-	case "multi", "wrapped", "accountops":
+	case "multi", "wrapped", "accountops", "forged":
 		e := forkEnv() // only to share the tx config / signer
 		c.tags["kind:"+in.Kind] = true
 		sgWorldOf(e).runMulti(c, &in)
@@ -2923,6 +3361,9 @@ func sigsDriver(cfg Config, out *Out) error {
 			}
 			if i%12 == 10 { // ... and one in eight to a history with account-type operations and re-deliveries
 				in.Kind, in.Route = "accountops", ""
+			}
+			if i%12 == 7 { // ... and one in eight to a history with messages forged from validated / executed transactions
+				in.Kind, in.Route = "forged", ""
 			}
 		}
 		out.Emit(sgRunCase(fmt.Sprintf("s%d-%d", cfg.Seed, i), in))
